@@ -3,7 +3,7 @@
 (* of at most MaxEdits well-formed edits with replacements from Repl, at most      *)
 (* MaxBatches batches.  hist is part of the state so that every TRANSITION is      *)
 (* emitted for replay into the real InputBuffer.                                   *)
-EXTENDS InputBuffer, Json
+EXTENDS InputBuffer, Json, SequencesExt
 
 CONSTANTS Alphabet, MaxChars, MaxEdits, MaxBatches, Repl, GenHist
 
@@ -43,7 +43,31 @@ MCCommit == /\ nb < MaxBatches
 MCNext == MCStart \/ MCCommit
 MCSpec == MCInit /\ [][MCNext]_mcvars
 
+\* expected view of the tiling of mod by single characters (what morphemes covering one
+\* character each must report): original byte range and surface
+CharTiles == LET mb == MapAtBoundaries(mod, m2o)
+             IN [i \in 1..Len(mod) |-> [b |-> mb[i], e |-> mb[i+1], s |-> SubByBytes(orig, mb[i], mb[i+1])]]
+
 Emit == (GenHist /\ nb >= 1) =>
           PrintT(<<"REPLAY", ToJson([hist |-> hist,
-                                     oc |-> IF st = "rw" /\ Len(mod) > 0 THEN OrigCharAtBoundaries ELSE <<>>])>>)
+                                     oc |-> IF st = "rw" /\ Len(mod) > 0 THEN OrigCharAtBoundaries ELSE <<>>,
+                                     tiles |-> IF st = "rw" /\ Len(mod) > 0 THEN CharTiles ELSE <<>>])>>)
+
+\* C01 on the model: EVERY tiling of the rewritten text by tokens on character boundaries
+\* maps to a partition of the original text whose surfaces concatenate to it.
+SortedCuts(S) == SetToSortSeq(S, LAMBDA a, b : a < b)
+RECURSIVE Concat(_, _)
+Concat(ss, i) == IF i > Len(ss) THEN <<>> ELSE ss[i] \o Concat(ss, i + 1)
+AnyTilingPartitions ==
+  (st = "rw" /\ Len(mod) > 0) =>
+    LET mb == MapAtBoundaries(mod, m2o)
+        n  == Len(mod)
+    IN \A cuts \in SUBSET (2..n) :
+         LET cs == SortedCuts(cuts \cup {1, n + 1})            \* sorted cut indices into mb
+             k  == Len(cs) - 1
+             rng == [j \in 1..k |-> [b |-> mb[cs[j]], e |-> mb[cs[j+1]]]]
+         IN /\ rng[1].b = 0 /\ rng[k].e = ByteLen(orig)
+            /\ \A j \in 1..(k - 1) : rng[j].e = rng[j+1].b
+            /\ \A j \in 1..k : rng[j].b <= rng[j].e /\ IsBoundary(orig, rng[j].b) /\ IsBoundary(orig, rng[j].e)
+            /\ Concat([j \in 1..k |-> SubByBytes(orig, rng[j].b, rng[j].e)], 1) = orig
 =============================================================================
